@@ -315,6 +315,9 @@ def concretise(x, why=""):
     t = S(t)
     if z3.is_int_value(t):
         return t.as_long()
+    # split on the sign first: the values a model hands out tend to be 0, 1, 2, ...; behaviour that depends on a negative value
+    # would otherwise be met late or never within a deadline
+    e.branch(t < 0)
     while True:
         m = e.model()
         if m is None:
